@@ -27,16 +27,19 @@ import (
 func TestMain(m *testing.M) {
 	logrus.SetOutput(io.Discard)
 	logrus.SetLevel(logrus.PanicLevel)
-	ev.C().Rule("rapid state machine over a real CachedCloudProvider with a scripted CloudProvider (per call: full / partial / empty / error with partial data; batch limit 1, 2 or 5; lookup limiter unlimited or 10^6/s with burst 1, 2 or 15) and an owned refresh ticker: actions submit(1..3 sources) / peek / tick(real now + k*10min) / emit / tickSlowProvider (refresh whose provider calls block) / release (the blocked calls return, possibly after the entries were evicted as idle) / idleAfterFailedRefresh (real-time bracketing of last use and failed refresh, then a tick between the two idle deadlines). TTL 15 min, negative TTL 5 min, idle 25 min so that every comparison has >= 5 min of margin against seconds of real drift. Oracle: answer-per-request multiset, cache model (never forgets good data), refresh and eviction sets, cache-size gauges. Non-trivial = a success followed by a failed refresh of the same source, or >= 2 sources in one provider call, or a refresh answer arriving after its entry was evicted")
+	ev.C().Rule("rapid state machine over a real CachedCloudProvider with a scripted CloudProvider (per call: full / partial / empty / error with partial data; batch limit 1, 2 or 5; lookup limiter unlimited or 10^6/s with burst 1, 2 or 15) and an owned refresh ticker: actions submit(1..3 sources) / peek / tick(real now + k*10min) / emit / tickSlowProvider (refresh whose provider calls block) / release (the blocked calls return, possibly after the entries were evicted as idle) / idleAfterFailedRefresh (real-time bracketing of last use and failed refresh, then a tick between the two idle deadlines). TTL 15 / negative TTL 5 / idle 25 min, or TTL 40 / negative 35 / idle 25 min (unused but still fresh), so that every comparison has >= 5 min of margin against seconds of real drift. Oracle: answer-per-request multiset, cache model (never forgets good data), refresh and eviction sets, cache-size gauges. Non-trivial = a success followed by a failed refresh of the same source, or >= 2 sources in one provider call, or a refresh answer arriving after its entry was evicted")
 	vt.Main(m)
 }
 
-const (
-	ttl     = 15 * time.Minute
-	negTTL  = 5 * time.Minute
-	idle    = 25 * time.Minute
-	refresh = time.Minute
+// cache timing, drawn per case: either both TTLs are shorter than the idle period (entries get refreshed while in use)
+// or both are longer (an unused entry is evicted although it is still fresh)
+var (
+	ttl    = 15 * time.Minute
+	negTTL = 5 * time.Minute
+	idle   = 25 * time.Minute
 )
+
+const refresh = time.Minute
 
 var sources = []gostatsd.Source{"10.0.0.1", "10.0.0.2", "10.0.0.3", "10.0.0.4"}
 
@@ -122,6 +125,11 @@ type entry struct {
 
 func TestInstanceCacheHistories(t *testing.T) {
 	rapid.Check(t, func(t *rapid.T) {
+		if rapid.Bool().Draw(t, "ttl-longer-than-idle") {
+			ttl, negTTL, idle = 40*time.Minute, 35*time.Minute, 25*time.Minute
+		} else {
+			ttl, negTTL, idle = 15*time.Minute, 5*time.Minute, 25*time.Minute
+		}
 		prov := &provider{max: rapid.SampledFrom([]int{1, 2, 5}).Draw(t, "max-batch"), force: -1}
 		prov.script = rapid.SliceOfN(rapid.SampledFrom([]outcome{full, full, partial, empty, failPartial, failEmpty}), 8, 8).Draw(t, "provider-script")
 		clk := rig.NewOwnedClock(time.Now())
@@ -320,8 +328,8 @@ func TestInstanceCacheHistories(t *testing.T) {
 		t.Repeat(map[string]func(*rapid.T){
 			"tickSlowProvider": func(t *rapid.T) {
 				// a refresh tick whose provider calls do not return until "release": the refresh stays outstanding
-				if held != nil {
-					t.Skip("provider already blocked")
+				if held != nil || ttl > idle {
+					t.Skip("provider already blocked, or nothing is ever refreshed in this configuration")
 				}
 				delta := 20 * time.Minute
 				var refreshSet []gostatsd.Source
@@ -352,8 +360,8 @@ func TestInstanceCacheHistories(t *testing.T) {
 				// the idle period counts from an entry's last use, not from its last refresh: entries are used at real time
 				// <= b, a refresh that finds nothing is handled at real time >= c, and a tick stamped between b+idle and
 				// c+idle must evict them all
-				if held != nil || len(model) == 0 {
-					t.Skip("needs cached entries and a responsive provider")
+				if held != nil || len(model) == 0 || ttl > idle {
+					t.Skip("needs cached entries, a responsive provider and TTLs below the idle period")
 				}
 				checkPeeks()
 				b := time.Now()
